@@ -3,6 +3,7 @@
 No model logic here: areas, results of union/intersection, and the raw geometric tables (Arc.intersection points,
 distances along the edges, signs of Arc.angle, _is_inside) that the Coq model of the edge walk takes as its oracle."""
 import json
+import signal
 import sys
 
 import numpy as np
@@ -66,11 +67,28 @@ def cart(lon, lat):
     return np.array([np.cos(lat) * np.cos(lon), np.cos(lat) * np.sin(lon), np.sin(lat)])
 
 
+class OpTimeout(Exception):
+    pass
+
+
+def _alarm(signum, frame):
+    raise OpTimeout("no result after %d s (the while-loop of _find_intersection_nodes does not terminate)" % OP_TIMEOUT)
+
+
+OP_TIMEOUT = 4
+signal.signal(signal.SIGALRM, _alarm)
+
+
 def run_op(p1, p2, name):
+    signal.alarm(OP_TIMEOUT)
     try:
         res = getattr(p1, name)(p2)
+    except OpTimeout as e:
+        return {"kind": 5, "err": "Timeout: %s" % e}
     except Exception as e:  # noqa
         return {"kind": 4, "err": "%s: %s" % (type(e).__name__, e)}
+    finally:
+        signal.alarm(0)
     if res is None:
         return {"kind": 0}
     if res is p1:
